@@ -1659,6 +1659,15 @@ where
 
         let tag: Tag = Tag::custom(TagKind::h(), [hex::encode(group.nostr_group_id)]);
 
+        #[cfg(feature = "verif-hooks")]
+        if let Some(ts) = crate::verif::wrapper_created_at() {
+            let event = EventBuilder::new(Kind::MlsGroupMessage, encrypted_content)
+                .tag(tag)
+                .custom_created_at(Timestamp::from_secs(ts))
+                .sign_with_keys(&ephemeral_nostr_keys)?;
+            return Ok(event);
+        }
+
         let event = EventBuilder::new(Kind::MlsGroupMessage, encrypted_content)
             .tag(tag)
             .sign_with_keys(&ephemeral_nostr_keys)?;
